@@ -1,7 +1,7 @@
 (* C04 — property theorems.  Only statements, each closed by [exact], each followed by
    Print Assumptions. *)
 From Coq Require Import ZArith List Bool.
-From Centro Require Import Base.Sx Model.Recon Spec.ReconSpec Spec.ReconInv Proofs.ReconSound Proofs.ReconLoop Proofs.ReconPrep Proofs.ReconOrder.
+From Centro Require Import Base.Sx Model.Recon Spec.ReconSpec Spec.ReconInv Proofs.ReconSound Proofs.ReconLoop Proofs.ReconPrep Proofs.ReconOrder Proofs.ReconSetupOrd Proofs.ReconBridge.
 Open Scope Z_scope.
 
 (* Full.  Any image R (e.g. the implementation's output) accepted by the extracted checker,
@@ -96,7 +96,8 @@ Print Assumptions C04_loop_between_partial.
 Theorem C04_loop_least_partial : forall g K v0 strides, geom_ok g -> Forall (stride_ok g) strides ->
   forall fuel cur s s', Inv g K strides v0 s -> -1 <= cur < 2 * gS g ->
   loop fuel (gS g) strides cur s = Ok s' ->
-  forall U, flat_postfixed g strides v0 U -> forall i, 0 <= i < gS g -> sel (vals s') i <= U i.
+  forall dec U, mono_on K dec -> flat_postfixed g strides v0 dec U ->
+  forall i, 0 <= i < gS g -> interior_b g i = true -> dec (sel (vals s') i) <= U i.
 Proof. exact loop_least. Qed.
 Print Assumptions C04_loop_least_partial.
 
@@ -270,3 +271,42 @@ Theorem C04_ord_check_sound : forall g strides s cur posa,
   ord_check g strides s cur posa = true -> Ord g strides s cur (sel posa).
 Proof. exact ord_check_sound. Qed.
 Print Assumptions C04_ord_check_sound.
+
+(* ---- round 4 ---- *)
+(* Full — setup_ord: for every geometry with padding >= 1 and every flat value list with
+   minimum-valued padding, the state built by merge sort + link_pairs + rank_order satisfies the order
+   invariant Ord with pos = index in the lexsort order (exact successor/predecessor table of
+   link_pairs over the sorted permutation; values non-increasing along the order). *)
+Theorem C04_setup_ord : forall g strides values mn,
+  geom_ok g -> zlen values = 2 * gS g ->
+  let val := fun i => nth (Z.to_nat i) values 0 in
+  (forall i, 0 <= i < gS g -> interior_b g i = false -> val i = mn /\ val (i + gS g) = mn) ->
+  (forall j, 0 <= j < 2 * gS g -> mn <= val j) ->
+  let s := setup_state values in
+  Ord g strides s (hd (-1) (vorder values)) (fun x => Z.of_nat (index_of x (vorder values))).
+Proof. exact setup_ord. Qed.
+Print Assumptions C04_setup_ord.
+
+(* Full — grey_reconstruction_model_correct.  For EVERY accepted input (seed <= mask, equal
+   rectangular shapes, footprint with odd dimensions >= 3, offset=None) the line-level model of
+   grey_reconstruction + grey_reconstruction_loop terminates within its fuel, never accesses out of
+   bounds, drops no node, and returns an image of the input's shape that IS the reconstruction by
+   dilation: between seed and mask, unchanged by the dilate-and-clip step, pointwise least among all
+   images above the seed that the step cannot raise.  No per-instance premise. *)
+Theorem C04_grey_reconstruction_model_correct : forall image mask fp,
+  accepted image mask fp = true -> 3 <= zlen fp -> 3 <= width fp ->
+  exists out, grey_reconstruction image mask fp = Ok (out, 0) /\
+    zlen out = zlen image /\ rect out (width image) = true /\ GridRecon image mask fp out.
+Proof. exact model_correct. Qed.
+Print Assumptions C04_grey_reconstruction_model_correct.
+
+(* Full — the checker that is run on the implementation's output accepts nothing but the model's
+   output: with the exact correspondence impl = model this closes the triangle
+   implementation output = model output = THE reconstruction = the only image recon_check accepts. *)
+Theorem C04_checker_accepts_only_model_output : forall image mask fp R lvl out d,
+  accepted image mask fp = true -> 3 <= zlen fp -> 3 <= width fp ->
+  grey_reconstruction image mask fp = Ok (out, d) ->
+  recon_check image mask fp R lvl = true ->
+  forall p, inD (zlen image) (width image) p = true -> gval R p = gval out p.
+Proof. exact checker_accepts_only_model_output. Qed.
+Print Assumptions C04_checker_accepts_only_model_output.
